@@ -30,7 +30,7 @@ type Parser struct {
 	LspSuggestTargetT   base.T
 	Errors              []error
 	DefineInfos         []string
-	BeforeString        string
+	isReplayedToken     bool
 }
 
 func New(lexer lexer.Lexer, file string) Parser {
